@@ -17,7 +17,9 @@ LEVEL = "exploration"
 RULE = (
     "Hypothesis-generated operation lists (length <= 30) over keys k0..k4 and paths /p0../p2 with values None / weakref-able "
     "objects / str, capacities {1,2,3,10,unbounded}, base store {memory, local}; each list is applied in lock step to "
-    "LRUCacheStore(base) and to a bare store of the same kind and every answer compared; on the local base the number of "
+    "LRUCacheStore(base) and to a bare store of the same kind and every answer compared with its type; values include objects the file "
+    "codecs cannot serialise (failing store_blob), bytearrays (read back as bytes by the file codecs) and lists that the caller modifies "
+    "after store_blob; on the local base the number of "
     "live fetched objects is counted after every step. Also dds.set_store(..., cache_objects=c) for c in "
     "{None,False,True,0,-1,1,2,5}. Non-trivial = the sequence fetches or probes a key before it is stored and again after, "
     "or fetches more distinct stored keys than the capacity; distinct by the op list."
@@ -48,10 +50,28 @@ class Obj(object):
         return f"Obj({self.n})"
 
 
+class Bad(Obj):
+    """a value the file codecs cannot serialise: store_blob of a file-backed store fails"""
+
+    def __reduce__(self):
+        raise TypeError("this object cannot be pickled")
+
+
 def mkval(j):
     if isinstance(j, dict):
+        if "bad" in j:
+            return Bad(j["bad"])
+        if "ba" in j:
+            return bytearray(j["ba"].encode())
+        if "lst" in j:
+            return [j["lst"]]
         return Obj(j["obj"])
     return j
+
+
+def typed(r):
+    """answers are compared with their type (bytearray(b'x') == b'x')"""
+    return (r[0], type(r[1]).__name__, r[1]) if r[0] == "ok" else r
 
 
 def _flatten(l):
@@ -59,6 +79,8 @@ def _flatten(l):
     for o in l:
         if o[0] == "sf":  # store immediately followed by a fetch (makes cache fills frequent)
             out += [["store", o[1]], ["fetch", o[1]]]
+        elif o[0] == "smf":  # store, then the caller modifies the object it passed, then fetch
+            out += [["store", o[1]], ["mutate", o[1]], ["fetch", o[1]]]
         elif o[0] == "aba":  # a path committed to key A, then B, then A again, then queried
             p, ka, kb = o[1], o[2], o[3]
             out += [["sync", {p: ka}], ["sync", {p: kb}], ["sync", {p: ka}], ["paths", [p]]]
@@ -71,7 +93,8 @@ def ops_strategy():
     from hypothesis import strategies as st
 
     key = st.sampled_from(KEYS)
-    val = st.one_of(st.none(), st.builds(lambda n: {"obj": n}, st.integers(0, 50)), st.sampled_from(["", "txt"]))
+    val = st.one_of(st.none(), st.builds(lambda n: {"obj": n}, st.integers(0, 50)), st.builds(lambda n: {"obj": n}, st.integers(0, 50)), st.sampled_from(["", "txt"]),
+                    st.builds(lambda n: {"bad": n}, st.integers(0, 5)), st.sampled_from([{"ba": ""}, {"ba": "xy"}]), st.builds(lambda n: {"lst": n}, st.integers(0, 5)))
     op = st.one_of(
         st.tuples(st.just("has"), key),
         st.tuples(st.just("fetch"), key),
@@ -79,6 +102,7 @@ def ops_strategy():
         st.tuples(st.just("store"), key),
         st.tuples(st.just("sf"), key),
         st.tuples(st.just("sf"), key),
+        st.tuples(st.just("smf"), key),
         st.tuples(st.just("aba"), st.sampled_from(PATHS), key, key),
         st.tuples(st.just("paths"), st.permutations(PATHS).map(lambda l: list(l)[:2])),
         st.tuples(st.just("sync"), st.dictionaries(st.sampled_from(PATHS), key, min_size=1, max_size=2)),
@@ -142,6 +166,7 @@ def check_case(case, ev=None, scratch=None):
         wrapped = LRUCacheStore(mk_base(case["base"], scratch), cap)
         bare = mk_base(case["base"], scratch)
         live = []
+        given = {}
         for step, o in enumerate(case["ops"]):
             kind = o[0]
             if kind == "has":
@@ -150,10 +175,20 @@ def check_case(case, ev=None, scratch=None):
                 a, b = call(lambda: wrapped.fetch_blob(o[1])), call(lambda: bare.fetch_blob(o[1]))
                 if a[0] == "ok" and isinstance(a[1], Obj):
                     live.append(weakref.ref(a[1]))
+                a, b = typed(a), typed(b)
             elif kind == "store":
-                v = mkval(case["vals"][o[1]])
-                a, b = call(lambda: wrapped.store_blob(o[1], v, None)), call(lambda: bare.store_blob(o[1], mkval(case["vals"][o[1]]), None))
-                del v
+                v, v2 = mkval(case["vals"][o[1]]), mkval(case["vals"][o[1]])
+                if isinstance(v, list):
+                    given.setdefault(o[1], []).extend([v, v2])
+                a, b = call(lambda: wrapped.store_blob(o[1], v, None)), call(lambda: bare.store_blob(o[1], v2, None))
+                del v, v2
+            elif kind == "mutate":
+                # the caller modifies the objects it handed to store_blob (file-backed base only: a memory store keeps the
+                # very object, and a later store_blob of the same content address would then disagree with it)
+                if case["base"] == "local":
+                    for obj in given.get(o[1], []):
+                        obj.append("modified after store_blob")
+                continue
             elif kind == "sync":
                 d = OrderedDict(sorted(o[1].items()))
                 a, b = call(lambda: wrapped.sync_paths(d)), call(lambda: bare.sync_paths(d))
